@@ -315,8 +315,14 @@ def fnum_to_float(tok):
 
 def basic_ok(il):
     r = il[0] if il else "R missing"
+    if r.startswith("R panic"):
+        return "the write call or the read-back panicked on a valid input: " + bytes.fromhex(r.split(" ")[2]).decode(errors="replace")[:160] if len(r.split(" ")) > 2 and r.split(" ")[2] != "-" else "the write call or the read-back panicked on a valid input"
+    if r.startswith("R hang"):
+        return "the write call did not return on a valid input (hang)"
+    if r.startswith("R err"):
+        return f"the writer refused a valid input with {r[6:40]}"
     if r != "R ok":
-        return f"the writer did not accept a valid input: `{r[:60]}`"
+        return f"no result for a valid input ({r[:40]})"
     if first_line(il, "OPEN") != "OPEN ok":
         return "the written file cannot be opened: " + str(first_line(il, "OPEN"))
     return None
